@@ -207,6 +207,7 @@ struct Args
     int         part{0}, parts{1}; // program partition for parallel processes
     int         verbose{0};
     int         alloc_points{0};
+    int         longrange{0}; // programs built around one long range / mass call (130 entries) against single calls
     int         seqcrash{0}; // replay mode: only answer whether some sequential order of the program dies too
     int         clocked{0}; // programs with a clock-tick thread; oracle on deadlines (C04, C05, C17)
 };
@@ -315,6 +316,14 @@ struct E2
         if (kind == 0)
         {
             s += " scan=" + scan_str(ad.scan(), cfg.nkeys);
+            if (a.longrange)
+            {
+                Op q;
+                q.k    = OpK::FindRange;
+                q.span = 131;
+                q.peek = 1;
+                s += " all=" + ad.apply(q).str();
+            }
         }
         else if (kind == 1)
         {
@@ -645,6 +654,102 @@ struct E2
         bound_completed = a.bound < 0 ? 99 : a.bound;
     }
 
+    // ---- long-range programs: one call whose work grows with the number of entries (range forms over 130
+    //      keys, clean_expired_values over 130 expired entries, dynamically_age over 130 idle entries) against
+    //      one or two single calls of another thread.  Catches work that is (wrongly) done in batches with the
+    //      lock released in between. ------------------------------------------------------------------------
+    void run_longrange()
+    {
+        t0 = wall();
+        const int N = 130;
+        auto span = [&](OpK k, int allow, int peek) {
+            Op o;
+            o.k      = k;
+            o.span   = N;
+            o.allow  = allow;
+            o.peek   = peek;
+            o.rngq   = 255;
+            o.ttl[0] = 2;
+            return o;
+        };
+        auto one = [&](OpK k, int key, int allow = 3, int peek = 0) {
+            Op o;
+            o.k      = k;
+            o.n      = 1;
+            o.key[0] = (int16_t)key;
+            o.allow  = allow;
+            o.peek   = peek;
+            o.rngq   = 255;
+            o.ttl[0] = 2;
+            return o;
+        };
+        auto adv = [&](int64_t dt) {
+            Op o;
+            o.k  = OpK::Advance;
+            o.dt = dt;
+            return o;
+        };
+        auto plain = [&](OpK k) {
+            Op o;
+            o.k = k;
+            return o;
+        };
+        Op fill    = span(OpK::InsertRange, 3, 0);
+        fill.wid[0] = 10000;
+        std::vector<Pre> pres;
+        pres.push_back({"130 live", {fill}});
+        if (T.ttl_cache || T.ttl_map)
+            pres.push_back({"130 expired", {fill, adv(2 * MS)}});
+        if (ck == CK::lfuda)
+            pres.push_back({"130 idle", {fill, adv(2 * MS + 1)}});
+        std::vector<Op> big;
+        big.push_back(span(OpK::FindRange, 3, T.has_peek ? 1 : 0));
+        if (T.has_peek)
+            big.push_back(span(OpK::FindRange, 3, 0));
+        big.push_back(span(OpK::FindRangeFill, 3, T.has_peek ? 1 : 0));
+        big.push_back(span(OpK::InsertRange, 2, 0));
+        big.push_back(span(OpK::EraseRange, 3, 0));
+        if (T.has_clean)
+            big.push_back(plain(OpK::Clean));
+        if (T.has_dynage)
+            big.push_back(plain(OpK::DynAge));
+        std::vector<std::vector<Op>> small;
+        small.push_back({one(OpK::Insert, 100, 3)});
+        small.push_back({one(OpK::Erase, 100)});
+        small.push_back({one(OpK::Find, 100)});
+        small.push_back({one(OpK::Insert, 131, 3)});
+        small.push_back({plain(OpK::Size)});
+        if (T.has_uc)
+            small.push_back({one(OpK::FindUC, 1, 3, 1), one(OpK::FindUC, N, 3, 1)});
+        else
+            small.push_back({one(OpK::Find, 1, 3, T.has_peek ? 1 : 0), one(OpK::Find, N, 3, T.has_peek ? 1 : 0)});
+        long idx = 0;
+        for (auto& pre : pres)
+            for (auto& b : big)
+                for (auto& sm : small)
+                {
+                    if ((idx++ % a.parts) != a.part)
+                        continue;
+                    Prog p;
+                    p.nt      = 2;
+                    p.pre     = pre.ops;
+                    p.prename = pre.name;
+                    p.ops[0]  = {b};
+                    p.ops[1]  = sm;
+                    int w     = 20000;
+                    for (int t = 0; t < 2; t++)
+                        for (auto& o : p.ops[t])
+                        {
+                            o.wid[0] = w;
+                            w += 500;
+                        }
+                    explore_program(p, a.bound);
+                    if (capped)
+                        return;
+                }
+        bound_completed = a.bound < 0 ? 99 : a.bound;
+    }
+
     struct SeqOut
     {
         std::vector<Result> res; // in order of the candidate
@@ -735,6 +840,8 @@ struct E2
             body += "clocked 1\n";
         if (a.alloc_points)
             body += "allocpoints 1\n";
+        if (a.longrange)
+            body += "longrange 1\n";
         body += "schedule";
         for (int c : choices)
             body += " " + std::to_string(c);
@@ -1276,6 +1383,8 @@ struct E2
                 a.clocked = 1;
             else if (!strncmp(line, "allocpoints 1", 13))
                 a.alloc_points = 1;
+            else if (!strncmp(line, "longrange 1", 11))
+                a.longrange = 1;
             else if (!strncmp(line, "props C", 7))
                 a.prop = atoi(line + 7);
             else if (!strncmp(line, "clause ", 7))
@@ -1464,6 +1573,8 @@ int main(int argc, char** argv)
             a.alloc_points = atoi(nx());
         else if (s == "--seqcrash")
             a.seqcrash = 1;
+        else if (s == "--longrange")
+            a.longrange = atoi(nx());
         else
         {
             fprintf(stderr, "unknown argument %s\n", s.c_str());
@@ -1483,7 +1594,13 @@ int main(int argc, char** argv)
     E2<AD> e(a);
     if (!a.replay_file.empty())
         return e.run_replay();
-    if (a.clocked)
+    if (a.longrange)
+    {
+        e.cfg.cap = 200;
+        a.cfg.cap = 200;
+        e.run_longrange();
+    }
+    else if (a.clocked)
         e.run_clocked();
     else
         e.run_all();
